@@ -4,6 +4,10 @@ import (
 	"encoding/json"
 	"fmt"
 	"math/rand/v2"
+	"os"
+	"path/filepath"
+	"sort"
+	"strings"
 
 	"github.com/pion/rtp"
 
@@ -15,50 +19,76 @@ import (
 
 // ---- corpus -----------------------------------------------------------------------------------
 
-func seqNALU(first byte, second byte, n int) string {
-	b := make([]byte, n)
-	for i := range b {
-		b[i] = byte(2 + i%250)
+func corpusDir(prop string) string {
+	if d := os.Getenv("VERIF_ROOT"); d != "" {
+		return filepath.Join(d, "corpus", prop)
 	}
-	b[0] = first
-	if n > 1 {
-		b[1] = second
+	if exe, err := os.Executable(); err == nil {
+		d := filepath.Join(filepath.Dir(exe), "..", "..", "corpus", prop)
+		if st, err2 := os.Stat(d); err2 == nil && st.IsDir() {
+			return d
+		}
 	}
-	return corr.Hex(b)
+	return "/verif/corpus/" + prop
 }
 
-// corpus runs the recorded inputs first.
-func corpus(c *corr.Ctx) {
-	if c.Want("C07") {
-		// DESIGN.md §6 #9 / known-findings h264-resync-lag: key frame [STAP-A(SPS,PPS), IDR in 3 FU-A]
-		// whose last packet is lost, then P-frames of one fragmented NALU each.
-		runFault(c, H264, &FaultInput{Mode: "h26x-fault", Codec: "h264",
-			Params: cu.EncParams{PT: 96, SSRC: 1, Seq0: 100, Max: 100},
-			Frames: [][]string{
-				{seqNALU(0x67, 0x42, 10), seqNALU(0x68, 0xce, 5), seqNALU(0x65, 0x88, 250)},
-				{seqNALU(0x41, 0x9a, 250)}, {seqNALU(0x41, 0x9b, 250)}, {seqNALU(0x41, 0x9c, 250)}, {seqNALU(0x41, 0x9d, 250)},
-			},
-			Faults: []string{"drop 3"}, TS0: 90000}, "corpus-h264-resync-lag")
-		// the same stream through H265 (no timestamp flush: the frame after the loss is polluted, then in step)
-		runFault(c, H265, &FaultInput{Mode: "h26x-fault", Codec: "h265",
-			Params: cu.EncParams{PT: 96, SSRC: 1, Seq0: 100, Max: 100},
-			Frames: [][]string{
-				{seqNALU(0x40, 0x01, 10), seqNALU(0x44, 0x01, 5), seqNALU(0x26, 0x01, 250)},
-				{seqNALU(0x02, 0x01, 250)}, {seqNALU(0x02, 0x01, 251)}, {seqNALU(0x02, 0x01, 252)}, {seqNALU(0x02, 0x01, 253)},
-			},
-			Faults: []string{"drop 3"}, TS0: 90000}, "corpus-h265-lost-marker")
-	}
-	if c.Want("C08") {
-		// fixed in /repo: an FU whose reassembly is only a start code made Decode return (nil, nil)
-		hostileCase(c, H264, []string{"7:1:0:1cc00001"}, "corpus-h264-empty-frame")
-		hostileCase(c, H264, []string{"7:0:0:1c80", "8:1:0:1c400001"}, "corpus-h264-empty-frame-2")
-		hostileCase(c, H265, []string{"1:0:0:620080", "2:1:0:62004001"}, "corpus-h265-empty-frame")
+// corpus runs the recorded inputs (corpus/C0x/h26x-*.json: replay inputs of this package or of the
+// generic driver) before anything is generated.
+func corpus(c *corr.Ctx, specs []*cu.Spec) {
+	for _, prop := range []string{"C03", "C06", "C07", "C08"} {
+		if !c.Want(prop) {
+			continue
+		}
+		files, _ := filepath.Glob(filepath.Join(corpusDir(prop), "h26x-*.json"))
+		sort.Strings(files)
+		for _, f := range files {
+			raw, err := os.ReadFile(f)
+			if err != nil {
+				continue
+			}
+			name := "corpus-" + strings.TrimSuffix(filepath.Base(f), ".json")
+			if !runInput(c, specs, raw, name) {
+				c.Note("corpus file not understood: " + f)
+			}
+			c.Dist("corpus-cases")
+		}
 	}
 }
 
-func hostileCase(c *corr.Ctx, s *cu.Spec, pkts []string, name string) {
-	raw, _ := json.Marshal(&cu.HostileInput{Mode: "hostile", Codec: s.Name, Pkts: pkts, Note: name})
-	cu.Replay(c, s, raw)
+// runInput executes one recorded input (this package's modes, else the generic driver's).
+func runInput(c *corr.Ctx, specs []*cu.Spec, raw []byte, name string) bool {
+	var probe struct {
+		Mode  string `json:"mode"`
+		Codec string `json:"codec"`
+	}
+	if json.Unmarshal(raw, &probe) != nil {
+		return false
+	}
+	for _, s := range specs {
+		if s.Name != probe.Codec {
+			continue
+		}
+		switch probe.Mode {
+		case "h26x-fault":
+			var in FaultInput
+			if json.Unmarshal(raw, &in) == nil {
+				runFault(c, s, &in, name)
+				return true
+			}
+		case "h26x-pts":
+			var in PtsInput
+			if json.Unmarshal(raw, &in) == nil {
+				runPts(c, s, &in, name)
+				return true
+			}
+		case "cap-size", "cap-peak":
+			capCases(c, s)
+			return true
+		default:
+			return cu.Replay(c, s, raw)
+		}
+	}
+	return false
 }
 
 // ---- boundary sweeps (C03 / C06) ----------------------------------------------------------------
@@ -321,64 +351,19 @@ func ptsCases(c *corr.Ctx, s *cu.Spec) {
 	}
 }
 
-// ---- replay of this package's own inputs --------------------------------------------------------
-
-func replayOwn(c *corr.Ctx, specs []*cu.Spec) bool {
-	var probe struct {
-		Mode  string `json:"mode"`
-		Codec string `json:"codec"`
-	}
-	if json.Unmarshal(c.Replay, &probe) != nil {
-		return false
-	}
-	for _, s := range specs {
-		if s.Name != probe.Codec {
-			continue
-		}
-		switch probe.Mode {
-		case "h26x-fault":
-			var in FaultInput
-			if json.Unmarshal(c.Replay, &in) == nil {
-				runFault(c, s, &in, "replay")
-				return true
-			}
-		case "h26x-pts":
-			var in PtsInput
-			if json.Unmarshal(c.Replay, &in) == nil {
-				runPts(c, s, &in, "replay")
-				return true
-			}
-		case "cap-size", "cap-peak":
-			capCases(c, s)
-			return true
-		case "fault":
-			// a generic fault stream is random: re-run the generic fault mode (same seed → same stream)
-			return false
-		}
-	}
-	return false
-}
-
 // Run is the domain entry point.
 func Run(c *corr.Ctx) {
 	ctx = c
 	c.Rule("per codec (h264, h265): round trips of 1..3 consecutive valid access units (NALU sizes concentrated within ±8 of the single/fragmented, aggregation-fit and k-fragment thresholds of the drawn payload limit; limits from the smallest workable value, mostly below 64, sometimes 100..400 and 1450; NALU counts up to the cap; initial sequence numbers incl. wrap inside the run), exhaustive single-size / size-pair sweeps at small limits, random fault streams + enumerated single (thorough: double) drop/dup/swap faults on 3-frame streams of all shape combinations, hostile streams (random, grammar-aware FU / aggregation / Annex-B payloads, mutated, shuffled, endless fragments, caps), PTSEqualsDTS on hostile and valid payloads with all prefixes; non-trivial = multi-packet or multi-frame or faulted; distinct = distinct op-line sequences")
 	specs := []*cu.Spec{H264, H265}
 	if c.Replay != nil {
-		if replayOwn(c, specs) {
-			return
-		}
-		for _, s := range specs {
-			if cu.Replay(c, s, c.Replay) {
-				return
-			}
-		}
+		runInput(c, specs, c.Replay, "replay")
 		return
 	}
 	// evidence samples (the recorded corpus inputs; the remaining samples are the first generated cases)
 	c.Sample(map[string]any{"case": "corpus-h264-resync-lag", "what": "key frame [STAP-A(SPS,PPS), IDR in 3 FU-A] with its marker packet lost, then 4 frames of one 250-byte NALU at limit 100"})
 	c.Sample(map[string]any{"case": "corpus-h264-empty-frame", "ops": []string{"h264 dinit", "h264 dec 7 0 1 1cc00001"}, "impl": []string{"ok", "err ret 0"}})
-	corpus(c)
+	corpus(c, specs)
 	for _, s := range specs {
 		cu.RunAll(c, s)
 		if c.Want("C03") || c.Want("C06") {
